@@ -127,6 +127,13 @@ CLAIMED = {
         "Byte-exact stream transfer under real interleavings inherits C01's declined clauses; the event loop and asyncio streams are the trusted base.",
         "DESIGN.md#c19",
     ),
+    "C17": (
+        "other",
+        "constant folding of every codec table and enum against an RFC reference (bijection / inverse checks), wire-grammar extraction from encoder and decoder ASTs with structural equality (28 codec pairs: TLS messages and sub-structures, ACK ranges, version information, QUIC frame writers vs handlers), guard extraction for exact-end / maximum-length tests, def-use of every pulled length field, and byte-order / threshold / prefix extraction from the clang AST of the C integer codecs",
+        "Decides the structural necessary conditions of round-tripping and RFC agreement for all inputs: tables equal the RFCs and invert each other; each encoder/decoder pair follows the same sequence of primitive fields and length prefixes; a block, an extension and a connection ID are accepted only within their declared / maximal length; every parsed length bounds what is read; the C integer codecs write and read the same bytes in the same order with the RFC 9000 varint thresholds, prefixes and lengths (shared with Python's size_uint_var).",
+        "Value-level round-trip equality and byte equality with a second encoder are declined (need execution). Four table-driven or multi-layout pairs are listed as not modelled (rules/c17.py:NOT_MODELLED); out-of-domain integers (silent truncation by CPython's B/H/I/K units) are noted as outside the quantifier.",
+        "DESIGN.md#c17",
+    ),
 }
 
 NOT_APPLICABLE = {
